@@ -833,6 +833,30 @@ func r20ResultKeysAreRequestedIDs(c *core.Ctx) {
 			}
 			back(arg)
 			okLv = len(keys) > 0 && kflow[arg] && onlyKeys
+			// or the library's Keys of that map (possibly collected from the iterator form)
+			if kc, isCall := arg.(*ssa.Call); isCall && !okLv {
+				for depth := 0; depth < 2 && kc != nil; depth++ {
+					id := core.StaticCalleeID(kc)
+					if i := strings.Index(id, "["); i > 0 {
+						id = id[:i]
+					}
+					switch id {
+					case "golang.org/x/exp/maps.Keys", "maps.Keys":
+						if len(kc.Call.Args) == 1 && mflow[kc.Call.Args[0]] {
+							okLv = true
+						}
+						kc = nil
+					case "slices.Collect", "slices.Sorted":
+						if len(kc.Call.Args) == 1 {
+							kc, _ = kc.Call.Args[0].(*ssa.Call)
+						} else {
+							kc = nil
+						}
+					default:
+						kc = nil
+					}
+				}
+			}
 		}
 	}
 	c.Check(R, "requested-levels-are-map-keys/"+sp.Name, sp.Decl.Pos(), okLv, "levels = keys of tileMatrixIDsByLevels(tms, tmIDs)", "the levels handed to addPointsAndSnap are not exactly the keys of the level->id map")
